@@ -996,7 +996,7 @@ func TestVerifC33(t *testing.T) {
 	r := ev.Start(t, "C33")
 	defer r.Finish()
 	thorough := r.Thorough()
-	depth := ev.Pick(r, 5, 7)
+	depth := ev.Pick(r, 5, 8)
 	res := mc.Run(r, mc.System{
 		Name:     "directory",
 		New:      func() mc.Instance { return c33New(thorough) },
